@@ -44,6 +44,14 @@ QUICK = [
     (2, 1, 1, 3), (2, 1, 2, 3), (2, 2, 1, 3), (2, 2, 2, 2), (2, 8, 1, 2, [0.3, -0.3]), (2, 8, 2, 1), (2, 20, 1, 1), (2, 20, 2, 1, None, [0.3, -0.01, -0.3]),
     (3, 1, 2, 2), (3, 2, 2, 2), (3, 8, 1, 1), (3, 20, 1, 1, None, [0.3, -0.01, -0.3]),
 ]
+# extra rows: (row, options) - a last step shorter than dt; ordinates of tiny magnitude (below the MPS precision) inside a search
+EXTRA = [
+    ((2, 8, 2, 1), {"short_last": True}),
+    ((2, 20, 2, 1, None, [0.3, -0.01, -0.3]), {"short_last": True}),
+    ((3, 8, 2, 1, None, [0.3, -0.01, -0.3]), {"short_last": True}),
+    ((2, 8, 1, 1, None, [0.3, 1e-7, -1e-7, -0.3]), {}),
+    ((2, 20, 1, 1, None, [0.3, -1e-7, -0.3]), {}),
+]
 THOROUGH = QUICK + [
     (2, 1, 3, 3), (2, 2, 3, 3), (2, 2, 2, 3), (2, 8, 1, 3, [0.3, -0.3]), (2, 8, 2, 2, [0.3, -0.3]), (2, 8, 3, 1), (2, 20, 1, 2, [0.3, -0.3]), (2, 0.5, 2, 3),
     (3, 2, 3, 2), (3, 8, 2, 1), (3, 8, 1, 2, [0.3, -0.3]),
@@ -57,6 +65,7 @@ def bounds(tier, seed):
         "answers_outside_a_search": OUT,
         "answers_inside_the_first_search": [0.3, 0.01, -0.01, -0.3],
         "exact_zero_answer": "thorough, 2 atoms, dt <= 2, bound 1",
+        "extra_rows": "last step half as long as dt (3 rows); ordinates of magnitude 1e-7 inside a search (2 rows)",
     }
 
 
@@ -68,6 +77,15 @@ def cases(tier, seed):
             c["inner2"] = row[4]
         if len(row) > 5 and row[5]:
             c["inner1"] = row[5]
+        yield c
+    for row, opts in EXTRA:
+        n, dt, steps, bound = row[:4]
+        c = {"n": n, "dt": dt, "steps": steps, "u": 0.5, "bound": bound, "zero": False}
+        if len(row) > 4 and row[4]:
+            c["inner2"] = row[4]
+        if len(row) > 5 and row[5]:
+            c["inner1"] = row[5]
+        c.update(opts)
         yield c
     if tier == "thorough":
         for u in (1e-9, 1 - 1e-9):
@@ -86,7 +104,9 @@ def _make_impl(case):
 
     n, dt, steps = case["n"], case["dt"], case["steps"]
     tt = [dt * k for k in range(steps + 1)]
-    ev = [k / steps for k in range(steps + 1)]
+    if case.get("short_last"):
+        tt[-1] = tt[-2] + 0.5 * dt  # the last step is shorter than config.dt (duration not a multiple of dt)
+    ev = [t / tt[-1] for t in tt]
     z = torch.zeros(steps, n, dtype=torch.complex128)
     L = torch.tensor([[1.0, 0.0], [0.0, -1.0]], dtype=torch.complex128) * np.sqrt(0.5)
     U = torch.zeros(n, n, dtype=torch.float64)
